@@ -381,14 +381,31 @@ SELF_ATTRS = {
 }
 
 
-def gen_apply_mask(mod):
+def _apply_mask_body(mod):
     fn = _find(mod, "apply_mask", "RFIMask")
     if [a.arg for a in fn.args.args] != ["self", "freq_mask"]:
         raise Unsupported("apply_mask signature")
     tr = Tr({"freq_mask": "LR"}, SELF_ATTRS)
-    txt = tr.block(_strip(fn.body), lambda t: "self", 1, opt=False)
+    return tr.block(_strip(fn.body), lambda t: "self", 1, opt=False)
+
+
+def gen_apply_mask(mod):
+    txt = _apply_mask_body(mod)
     return ("(* from RFIMask.apply_mask *)\nDefinition apply_mask (nchans : Z) (chan_freqs : qvec) (self : mstate) (freq_mask : list (Q * Q)) : mstate :=\n"
             + txt + ".\n")
+
+
+def gen_apply_mask_x(mod):
+    """the same statements with range end points that may be infinite (float("-inf"), float("inf")): the two comparisons of the channel
+    frequencies with an end point become the extended ones of C16_Vec.v (vgex, vlex); any other use of an end point is not recognised"""
+    import re as _re
+    txt = _apply_mask_body(mod)
+    if len(_re.findall(r"\bvge\b", txt)) != 1 or len(_re.findall(r"\bvle\b", txt)) != 1 or len(_re.findall(r"\bfreq_range\b", txt)) != 3:
+        raise Unsupported("apply_mask uses a range end point other than in one >= and one <= comparison with the channel frequencies")
+    txt_x = _re.sub(r"\bvle\b", "vlex", _re.sub(r"\bvge\b", "vgex", txt))
+    return ("(* from RFIMask.apply_mask, end points in the extended rationals *)\n"
+            "Definition apply_mask_x (nchans : Z) (chan_freqs : qvec) (self : mstate) (freq_mask : list (xq * xq)) : mstate :=\n"
+            + txt_x + ".\n")
 
 
 def gen_apply_method(mod):
@@ -685,6 +702,7 @@ def gen_c16rfi(repo="/repo"):
     if r is not None:
         fields = r[1]
     emit("RFIMask.apply_mask", lambda: gen_apply_mask(rmod))
+    emit("RFIMask.apply_mask (extended end points)", lambda: gen_apply_mask_x(rmod))
     emit("RFIMask.apply_method", lambda: gen_apply_method(rmod))
     emit("RFIMask.apply_funcn", lambda: gen_apply_funcn(rmod))
     if fields is not None:
